@@ -26,7 +26,7 @@ def lock(ctx, name, modes, tier, info, timeout=600):
 PROOTS = ['vf_pw_init', 'vf_tok_init', 'vf_pw_execute', 'vf_pw_write', 'vf_pw_write_batch', 'vf_pw_push_sentinel', 'vf_vec_init2', 'vf_msg_eob']
 FUN_P = ['FIX8::FIXWriter::execute (pipelined writer loop)', 'FIX8::FIXWriter::write(Message*,bool) / write_batch in pm_pipeline', 'std::unique_ptr<Message> (header code)', 'f8_scoped_spin_lock (cut mode, real)']
 STUBS_P = ['ff_unbounded_queue<Message*>::try_push/pop := abstract FIFO of message indices (C30 contract); pop blocks (assume) and is the scheduling point of the writer thread',
-           'Session::send_process := recorder (order, use-after-delete)', 'std::default_delete<Message> := recorder', 'Session::is_shutdown := false', 'f8_mutex lock/unlock := no-op (sequential harness)',
+           'Session::send_process := recorder (order, use-after-delete)', 'std::default_delete<Message> := recorder', 'Session::is_shutdown := false', 'Session::is_loggable := false (scout_* logging off)', 'f8_mutex lock/unlock := no-op (sequential harness)',
            'pthread_spin_lock/unlock := test-and-set model (uncontended here)']
 def build_pipe(ctx):
     shim = ctx.build_ir('c25p.cpp', 'cut')
@@ -38,7 +38,7 @@ def build_pipe(ctx):
 
 def pipe(ctx, name, nsingle, nbatch, tier, info, timeout=600):
     nmsg = nsingle + 2 * nbatch
-    ctx.add(Harness(name, VERIF + '/harness/C25_pipe.c', defines=['VEC_T=' + info['vec_t'], 'NSINGLE=%d' % nsingle, 'NBATCH=%d' % nbatch, 'VF_MAXCOPY=4'], unwind=4, object_bits=14,
+    ctx.add(Harness(name, VERIF + '/harness/C25_pipe.c', defines=info.get('defs', []) + ['VEC_T=' + info['vec_t'], 'NSINGLE=%d' % nsingle, 'NBATCH=%d' % nbatch, 'VF_MAXCOPY=4'], unwind=4, object_bits=14,
                     unwindset=['main.%d:%d' % (i, nmsg + 4) for i in range(9)] + ['sched.0:%d' % (nmsg + 3), '_ZN4FIX89FIXWriter7executeERNS_28f8_thread_cancellation_tokenE.0:%d' % (nmsg + 3),
                                '_ZN4FIX89FIXWriter11write_batchERKSt6vectorIPNS_7MessageESaIS3_EEb.0:4', '_ZN4FIX89FIXWriter11write_batchERKSt6vectorIPNS_7MessageESaIS3_EEb.1:4'],
                     timeout=timeout, mem_gb=16, functions=FUN_P, stubs=STUBS_P, tier=tier,
@@ -52,7 +52,7 @@ def run(ctx):
     lock(ctx, 'C25_lock_w_b', (0, 2, 9), 'quick', info)
     lock(ctx, 'C25_lock_b_b', (2, 2, 9), 'quick', info)
     lock(ctx, 'C25_lock_r_b', (1, 2, 9), 'quick', info)
-    pinfo = build_pipe(ctx)
+    pinfo = build_pipe(ctx); pinfo['defs'] = defs + [d for d in os.environ.get('VF_EXTRA_DEFS', '').split() if d]
     pipe(ctx, 'C25_pipe_s1_b1', 1, 1, 'quick', pinfo)
     pipe(ctx, 'C25_pipe_s2_b1', 2, 1, 'thorough', pinfo, 3000)
     lock(ctx, 'C25_lock_w_b_r', (0, 2, 1), 'thorough', info, 3000)
@@ -68,5 +68,5 @@ def replay(ctx, cx, h=None):
     """native witness: N threads hammer the real FIXWriter::write/write_batch (libfix8, pm_thread) whose Session::send_process is interposed by the same
     non-atomic witness; a lost update / overlap observed natively reproduces the violation (schedule dependent: bounded retries, never a false alarm)"""
     exe = ctx.native('c25replay', ['replay/c25_replay.cpp'], flags=('-O1', '-g', '-fno-access-control'), libs=['-L' + REPO + '/runtime/.libs', '-lfix8', '-L' + REPO + '/utests/.libs', '-lutest', '-Wl,-rpath,' + REPO + '/runtime/.libs', '-Wl,-rpath,' + REPO + '/utests/.libs'])
-    r = sh([exe], cwd=ctx.work)
+    r = sh([exe] + (['pipe'] if h is not None and 'pipe' in h.name else []), cwd=ctx.work)
     return r.returncode != 0, r.stdout.strip()[-400:].replace('\n', ' | ')
